@@ -1,7 +1,418 @@
-import RbdlProofs.Lemmas.Rot
-/- C05 — property theorems (being filled in) -/
+import RbdlProofs.Lemmas.L05Ex
+import RbdlProofs.Props.C06
+import RbdlProofs.Props.C04
+/-
+  C05 — Jacobians are the derivative of forward kinematics.
+
+  For a zero-initialised matrix `G`: `G(q) q̇` is the corresponding velocity for every `q̇`; columns of
+  DoFs that are not on the path from the body to the base stay as they were; the three Jacobians
+  agree under the change of frame.
+
+  Helper notions (`RbdlProofs/Lemmas/L05*.lean`, namespace `Rbdl.L05`):
+  * `Tree m` — `λ i < i` for the movable bodies; `path m j = [j, λ j, λ λ j, …]` (root excluded);
+  * `Layout m` — tree order, contiguous coordinate ranges `qIndex (i+1) = qIndex i + dof i`, all
+    inside `[0, qdotSize)`: a consequence of `ModelS.WF` (`Layout.of_WF`);
+  * `ColsOk m w` — joint `j` has at most `dof j` motion-subspace columns `w.Scols m j` (automatic
+    except for custom joints, `colsOk_of_custom`); `inBlock m w j k` — column `k` lies in the block
+    `[qIndex j, qIndex j + #Scols j)` of joint `j`;
+  * `wsum x s cols = Σ_c x (s + c) • cols[c]` (the model's `colsMul cols x` is `wsum x 0 cols`);
+    `pathSum m w q̇ g l = Σ_{j ∈ l} Σ_c q̇[qIndex j + c] • g j (S_{j,c})`;
+  * `KinWS m w q̇` — the workspace satisfies, for every movable body `i`,
+      `X_base i = X_λ i * X_base (λ i)`,  `v i = X_λ i (v (λ i)) + v_J i`,  `v_J i = Σ_c q̇ • S_{i,c}`,
+    with rotations `X_λ i` (for `λ i = 0` the terms of the base are absent);
+    `KinHyp m w st` — the hypotheses of C06 on model, state and construction-time workspace, plus
+    `CustomInj m` (different custom joints use different slots of the custom-joint arrays);
+    `JacHyp m w q̇ = Layout m ∧ ColsOk m w ∧ KinWS m w q̇`;
+  * `colSV G k` — column `k` (rows 0..5) as a spatial vector; `mulVecSV G n x` / `mulVecV3 G n x` —
+    the rows `0..5` / `0..2` of `G x`, each `sumTo n (fun k => G r k * x k)`; `zeroMat`;
+  * `bsjT m w id` — the transform `CalcBodySpatialJacobian` uses (`X_base[id]`, for a fixed body
+    `parentTransform * X_base[movable parent]`).
+
+  Findings.
+  * All statements are for all joint kinds `jcalc` handles (1-DoF, 3-DoF and the custom joints).
+    For custom joints the proofs need `CustomInj m`: the workspace keeps one column list per
+    custom-joint slot (`cS[customIdx]`), so two joints sharing a slot would read each other's columns
+    (`AddBodyCustomJoint` always allocates a fresh slot; `ModelS.WF` does not record this).
+  * The theorems of (3) are stated for `update_kinematics = false` in a workspace prepared by
+    `UpdateKinematics` or `UpdateKinematicsCustom (Q, QDot)`; with the flag set the Jacobian routines
+    first run `UpdateKinematicsCustom (Q)` (`update_flag`, by unfolding).
+  * No model hypothesis is needed for the agreement of the three Jacobians (4): the three routines
+    walk the same path and write the same columns; only `T_body.E` must be a rotation for (4b).
+  * (5) is quantitative: with an arbitrary initial matrix the product is off by exactly the product of
+    the off-path columns of the initial matrix with `q̇` (`garbage_mul`).
+  * `DecidableEq α` is not needed.
+-/
 namespace Rbdl.C05
-open Lean.Grind Rbdl
-variable {α : Type} [CommRing α]
-theorem placeholder_rot_one : (M3.one : M3 α).IsRot := M3.isRot_one
+open Lean.Grind Rbdl Rbdl.L05 Rbdl.Spec
+variable {α : Type} [Field α]
+
+/-! ### 1. the walk to the root and the columns written by `jacFill` -/
+
+/-- the path is defined by `path 0 = []`, `path j = j :: path (λ j)` -/
+theorem path_recursion (m : ModelS α) (htree : Tree m) :
+    path m 0 = [] ∧ ∀ j, 1 ≤ j → j < m.nBodies → path m j = j :: path m (m.lam j) :=
+  ⟨path_zero m, path_unfold m htree⟩
+example := path_recursion C04.Ex.m C04.Ex.m_tree
+
+/-- `walkUp` reaches the root: in tree order any fuel `≥ j` — in particular `nBodies` — gives the
+    complete walk `body (…) ∘ body (λ j) ∘ body j` along `path m j` -/
+theorem walkUp_terminates {σ : Type} (m : ModelS α) (htree : Tree m) (j : Nat)
+    (hj : j < m.nBodies) (fuel : Nat) (hf : j ≤ fuel) (body : Nat → σ → σ) (s : σ) :
+    walkUp m fuel j body s = walkUp m m.nBodies j body s ∧
+    walkUp m m.nBodies j body s = (path m j).foldl (fun s j => body j s) s := by
+  refine ⟨walkUp_fuel m htree j hj fuel m.nBodies hf (by omega) body s, ?_⟩
+  rw [walkUp_eq_foldl, pathList_eq_path m htree j hj _ (by omega)]
+example (body : Nat → Nat → Nat) (s : Nat) :=
+  walkUp_terminates C04.Ex.m C04.Ex.m_tree 3 (by decide) 3 (by decide) body s
+
+/-- (1) after `jacFill m w T start sel G`: for every joint `j` on the path `start → root` and every
+    column `c` of `w.Scols m j`, column `qIndex j + c` holds `sel (T (X_base[j]⁻¹ S_c))` (in the rows
+    `sel` produces; any further rows keep the input) -/
+theorem jacFill_columns (m : ModelS α) (w : WS α) (T : XT α) (start : Nat) (sel : SV α → List α)
+    (G : MatN α) (hL : Layout m) (hc : ColsOk m w) (hs : start < m.nBodies) (j : Nat)
+    (hj : j ∈ path m start) (c : Nat) (hcj : c < (w.Scols m j).length) (r : Nat) :
+    jacFill m w T start sel G r ((m.joint j).qIndex + c)
+      = if r < (sel (T.apply ((w.X_base j).inverse.apply ((w.Scols m j).getD c SV.zero)))).length
+        then (sel (T.apply ((w.X_base j).inverse.apply ((w.Scols m j).getD c SV.zero)))).getD r 0
+        else G r ((m.joint j).qIndex + c) :=
+  jacFill_column m w T start sel G hL hc hs j hj c hcj r
+/-- body 3 of `C04.Ex.m` (spherical, columns 2..4) on the path of body 3, column 1 of 3 -/
+example (T : XT Rat) (G : MatN Rat) (r : Nat) :=
+  jacFill_columns C04.Ex.m Ex.w1 T 3 SV.toList G Ex.m_layout Ex.w1_jacHyp.cols (by decide) 3
+    (self_mem_path _ C04.Ex.m_tree 3 (by decide) (by decide)) 1 (by decide) r
+
+/-- (1) for the 6-row fills (`sel = SV.toList`): the whole column is the spatial vector -/
+theorem jacFill_columns6 (m : ModelS α) (w : WS α) (T : XT α) (start : Nat) (G : MatN α)
+    (hL : Layout m) (hc : ColsOk m w) (hs : start < m.nBodies) (j : Nat)
+    (hj : j ∈ path m start) (c : Nat) (hcj : c < (w.Scols m j).length) :
+    colSV (jacFill m w T start SV.toList G) ((m.joint j).qIndex + c)
+      = T.apply ((w.X_base j).inverse.apply ((w.Scols m j).getD c SV.zero)) := by
+  simp only [colSV, jacFill_column m w T start SV.toList G hL hc hs j hj c hcj, SV.toList,
+    List.length_cons, List.length_nil]
+  rfl
+/-- the column of the revoluteZ joint 1 in the fill started at body 3 -/
+example (T : XT Rat) (G : MatN Rat) :=
+  jacFill_columns6 C04.Ex.m Ex.w1 T 3 G Ex.m_layout Ex.w1_jacHyp.cols (by decide) 1
+    (parent_path_subset _ C04.Ex.m_tree 3 (by decide) (by decide) 1
+      (parent_path_subset _ C04.Ex.m_tree 2 (by decide) (by decide) 1
+        (self_mem_path _ C04.Ex.m_tree 1 (by decide) (by decide)))) 0 (by decide)
+
+/-- (1, 5) `offpath_untouched`: every column outside the blocks of the joints on the path keeps
+    the value of the input matrix, in every row -/
+theorem offpath_untouched (m : ModelS α) (w : WS α) (T : XT α) (start : Nat)
+    (sel : SV α → List α) (G : MatN α) (htree : Tree m) (hs : start < m.nBodies) (k : Nat)
+    (hk : ∀ j ∈ path m start, ¬ inBlock m w j k) (r : Nat) :
+    jacFill m w T start sel G r k = G r k :=
+  jacFill_offpath m w T start sel G htree hs k hk r
+/-- in the fill started at body 1 of `C04.Ex.m` (block: column 0) column 5 is not touched -/
+example (T : XT Rat) (G : MatN Rat) (r : Nat) :=
+  offpath_untouched C04.Ex.m Ex.w1 T 1 SV.toList G C04.Ex.m_tree (by decide) 5
+    (fun j hj hb => by
+      rw [path_unfold _ C04.Ex.m_tree 1 (by decide) (by decide)] at hj
+      have hl : C04.Ex.m.lam 1 = 0 := rfl
+      rw [hl, path_zero, List.mem_singleton] at hj
+      subst hj
+      exact absurd hb.2 (by decide)) r
+
+/-- in particular it is zero for a zero-initialised matrix -/
+theorem offpath_zero (m : ModelS α) (w : WS α) (T : XT α) (start : Nat) (sel : SV α → List α)
+    (htree : Tree m) (hs : start < m.nBodies) (k : Nat)
+    (hk : ∀ j ∈ path m start, ¬ inBlock m w j k) (r : Nat) :
+    jacFill m w T start sel zeroMat r k = 0 :=
+  jacFill_offpath m w T start sel zeroMat htree hs k hk r
+
+example (T : XT Rat) (r : Nat) :=
+  offpath_zero C04.Ex.m Ex.w1 T 1 SV.toList C04.Ex.m_tree (by decide) 5
+    (fun j hj hb => by
+      rw [path_unfold _ C04.Ex.m_tree 1 (by decide) (by decide)] at hj
+      have hl : C04.Ex.m.lam 1 = 0 := rfl
+      rw [hl, path_zero, List.mem_singleton] at hj
+      subst hj
+      exact absurd hb.2 (by decide)) r
+
+/-- the hypotheses `Layout m` (and the declared `dof` of custom joints) used below are part of the
+    structural invariant `ModelS.WF` of C14 -/
+theorem layout_of_WF (m : ModelS α) (hwf : m.WF) :
+    Layout m ∧
+    ∀ i, 1 ≤ i → i < m.nBodies → (m.joint i).jt = .custom →
+      (m.joint i).dof = (m.custom (m.joint i).customIdx).dof :=
+  ⟨Layout.of_WF m hwf, customDof_of_WF m hwf⟩
+/-- the model built by the construction calls of C14 (floating base, revolute, fixed, spherical,
+    2-axis chain, custom joint) -/
+example := layout_of_WF C14.Ex.M (C14.wf_run C14.Ex.ops C14.Ex.validRun_ops)
+
+/-! ### 2. the spatial velocity as a sum over the path -/
+
+/-- `UpdateKinematics (Q, QDot, QDDot)` leaves a workspace that satisfies the kinematic recursions,
+    in which every custom joint has as many columns as its kind has degrees of freedom -/
+theorem updateKinematics_kinWS (m : ModelS α) (w : WS α) (st : QS α) (qd qdd : VecN α)
+    (h : KinHyp m w st) :
+    KinWS m (updateKinematics m w st qd qdd) qd ∧
+    CustomCols m (updateKinematics m w st qd qdd) :=
+  kinWS_updateKinematics m w st qd qdd h
+example := updateKinematics_kinWS C04.Ex.m L06.Ex.w L06.Ex.st L06.Ex.qd L06.Ex.qdd Ex.m_kinHyp
+
+/-- so does `UpdateKinematicsCustom (Q, QDot)` (the update `CalcPointVelocity6D` performs) -/
+theorem updateKinematicsCustom_kinWS (m : ModelS α) (w : WS α) (st : QS α) (qd : VecN α)
+    (h : KinHyp m w st) :
+    KinWS m (updateKinematicsCustom m w (some st) (some qd) none) qd ∧
+    CustomCols m (updateKinematicsCustom m w (some st) (some qd) none) :=
+  kinWS_updateKinematicsCustom m w st qd h
+example := updateKinematicsCustom_kinWS C04.Ex.m L06.Ex.w L06.Ex.st L06.Ex.qd Ex.m_kinHyp
+
+/-- in such a workspace all `X_base[i].E` are rotations -/
+theorem kinWS_rotations (m : ModelS α) (w : WS α) (qd : VecN α) (h : KinWS m w qd)
+    (htree : Tree m) : ∀ i, 1 ≤ i → i < m.nBodies → (w.X_base i).E.IsRot :=
+  h.rot_base htree
+example := kinWS_rotations C04.Ex.m Ex.w1 L06.Ex.qd Ex.w1_jacHyp.kin C04.Ex.m_tree
+
+/-- (2) `X_base[i]⁻¹ v[i] = Σ_{j on path(i)} Σ_c q̇[qIndex j + c] • X_base[j]⁻¹ S_{j,c}` -/
+theorem spatial_velocity_as_sum (m : ModelS α) (w : WS α) (qd : VecN α) (h : KinWS m w qd)
+    (htree : Tree m) (i : Nat) (h1 : 1 ≤ i) (hi : i < m.nBodies) :
+    (w.X_base i).inverse.apply (w.v i)
+      = pathSum m w qd (fun j => (w.X_base j).inverse.apply) (path m i) :=
+  velocity_as_sum h htree i h1 hi
+example := spatial_velocity_as_sum C04.Ex.m Ex.w1 L06.Ex.qd Ex.w1_jacHyp.kin C04.Ex.m_tree 3
+  (by decide) (by decide)
+example := spatial_velocity_as_sum C04.Ex.m Ex.w2 L06.Ex.qd Ex.w2_jacHyp.kin C04.Ex.m_tree 4
+  (by decide) (by decide)
+
+/-! ### 3. `G q̇` is the velocity -/
+
+/-- (3, core) for a zero-initialised matrix, `G q̇` of the fill with transform `T` started at a
+    movable body is `T` applied to the base-frame spatial velocity of that body -/
+theorem jacFill_mul (m : ModelS α) (w : WS α) (qd : VecN α) (h : JacHyp m w qd) (T : XT α)
+    (start : Nat) (h1 : 1 ≤ start) (hs : start < m.nBodies) :
+    mulVecSV (jacFill m w T start SV.toList zeroMat) m.qdotSize qd
+      = T.apply ((w.X_base start).inverse.apply (w.v start)) :=
+  jacFill_mulVec h.layout h.cols h.kin T start h1 hs
+example (T : XT Rat) := jacFill_mul C04.Ex.m Ex.w1 L06.Ex.qd Ex.w1_jacHyp T 3 (by decide) (by decide)
+
+/-- (3) `bodySpatialJacobian_mul`: `G q̇ = v[id]`, the body-frame spatial velocity -/
+theorem bodySpatialJacobian_mul (m : ModelS α) (w : WS α) (st : QS α) (qd : VecN α) (id : Nat)
+    (h : JacHyp m w qd) (h1 : 1 ≤ id) (hi : id < m.nBodies) (hid : ¬ fixedDisc ≤ id) :
+    mulVecSV (calcBodySpatialJacobian m w st id zeroMat false).2 m.qdotSize qd = w.v id :=
+  bodySpatialJacobian_mul_movable m w st qd id h h1 hi hid
+example := bodySpatialJacobian_mul C04.Ex.m Ex.w1 L06.Ex.st L06.Ex.qd 3 Ex.w1_jacHyp (by decide)
+  (by decide) (by decide)
+
+/-- (3) `pointJacobian6D_mul`: `G q̇ = CalcPointVelocity6D (…, update = false)` in the same workspace -/
+theorem pointJacobian6D_mul (m : ModelS α) (w : WS α) (st : QS α) (qd : VecN α) (id : Nat)
+    (p : V3 α) (h : JacHyp m w qd) (h1 : 1 ≤ id) (hi : id < m.nBodies) (hid : ¬ fixedDisc ≤ id) :
+    mulVecSV (calcPointJacobian6D m w st id p zeroMat false).2 m.qdotSize qd
+      = (calcPointVelocity6D m w st qd id p false).2 :=
+  pointJacobian6D_mul_movable m w st qd id p h h1 hi hid
+example (p : V3 Rat) := pointJacobian6D_mul C04.Ex.m Ex.w1 L06.Ex.st L06.Ex.qd 3 p Ex.w1_jacHyp
+  (by decide) (by decide) (by decide)
+example (p : V3 Rat) := pointJacobian6D_mul C04.Ex.m Ex.w2 L06.Ex.st L06.Ex.qd 4 p Ex.w2_jacHyp
+  (by decide) (by decide) (by decide)
+
+/-- the same, row by row, in the form `Σ_{k < qdotSize} G r k * q̇ k` -/
+theorem pointJacobian6D_mul_rows (m : ModelS α) (w : WS α) (st : QS α) (qd : VecN α) (id : Nat)
+    (p : V3 α) (h : JacHyp m w qd) (h1 : 1 ≤ id) (hi : id < m.nBodies) (hid : ¬ fixedDisc ≤ id)
+    (r : Nat) (hr : r < 6) :
+    sumTo m.qdotSize (fun k => (calcPointJacobian6D m w st id p zeroMat false).2 r k * qd k)
+      = (SV.toList (calcPointVelocity6D m w st qd id p false).2).getD r 0 := by
+  rw [← pointJacobian6D_mul m w st qd id p h h1 hi hid, mulVecSV_row _ _ _ r hr]
+example (p : V3 Rat) := pointJacobian6D_mul_rows C04.Ex.m Ex.w1 L06.Ex.st L06.Ex.qd 3 p
+  Ex.w1_jacHyp (by decide) (by decide) (by decide) 4 (by decide)
+
+/-- (3) `pointJacobian_mul`: the 3-row version, `G q̇ = CalcPointVelocity` -/
+theorem pointJacobian_mul (m : ModelS α) (w : WS α) (st : QS α) (qd : VecN α) (id : Nat)
+    (p : V3 α) (h : JacHyp m w qd) (h1 : 1 ≤ id) (hi : id < m.nBodies) (hid : ¬ fixedDisc ≤ id) :
+    mulVecV3 (calcPointJacobian m w st id p zeroMat false).2 m.qdotSize qd
+      = (calcPointVelocity m w st qd id p false).2 :=
+  pointJacobian_mul_movable m w st qd id p h h1 hi hid
+example (p : V3 Rat) := pointJacobian_mul C04.Ex.m Ex.w1 L06.Ex.st L06.Ex.qd 3 p Ex.w1_jacHyp
+  (by decide) (by decide) (by decide)
+
+theorem pointJacobian_mul_rows (m : ModelS α) (w : WS α) (st : QS α) (qd : VecN α) (id : Nat)
+    (p : V3 α) (h : JacHyp m w qd) (h1 : 1 ≤ id) (hi : id < m.nBodies) (hid : ¬ fixedDisc ≤ id)
+    (r : Nat) (hr : r < 3) :
+    sumTo m.qdotSize (fun k => (calcPointJacobian m w st id p zeroMat false).2 r k * qd k)
+      = (V3.toList (calcPointVelocity m w st qd id p false).2).getD r 0 := by
+  rw [← pointJacobian_mul m w st qd id p h h1 hi hid, mulVecV3_row _ _ _ r hr]
+example (p : V3 Rat) := pointJacobian_mul_rows C04.Ex.m Ex.w1 L06.Ex.st L06.Ex.qd 3 p
+  Ex.w1_jacHyp (by decide) (by decide) (by decide) 2 (by decide)
+
+/-- (3) fixed body ids, through `refBody` / `refPoint` -/
+theorem pointJacobian6D_mul_fixedBody (m : ModelS α) (w : WS α) (st : QS α) (qd : VecN α)
+    (id : Nat) (p : V3 α) (h : JacHyp m w qd) (hf : m.isFixedBodyId id = true)
+    (h1 : 1 ≤ m.refBody id) (hi : m.refBody id < m.nBodies) (hrb : ¬ fixedDisc ≤ m.refBody id) :
+    mulVecSV (calcPointJacobian6D m w st id p zeroMat false).2 m.qdotSize qd
+      = (calcPointVelocity6D m w st qd id p false).2 := by
+  rw [refBody_fixed m id hf] at h1 hi hrb
+  exact pointJacobian6D_mul_fixed m w st qd id p h hf h1 hi hrb
+/-- the fixed body of `C04.Ex.m` (attached to body 2 with the frame `C16.Ex.Y`) -/
+example (p : V3 Rat) := pointJacobian6D_mul_fixedBody C04.Ex.m Ex.w1 L06.Ex.st L06.Ex.qd fixedDisc p
+  Ex.w1_jacHyp Ex.m_fixed (by decide) (by decide) (by decide)
+
+theorem pointJacobian_mul_fixedBody (m : ModelS α) (w : WS α) (st : QS α) (qd : VecN α)
+    (id : Nat) (p : V3 α) (h : JacHyp m w qd) (hf : m.isFixedBodyId id = true)
+    (h1 : 1 ≤ m.refBody id) (hi : m.refBody id < m.nBodies) (hrb : ¬ fixedDisc ≤ m.refBody id) :
+    mulVecV3 (calcPointJacobian m w st id p zeroMat false).2 m.qdotSize qd
+      = (calcPointVelocity m w st qd id p false).2 := by
+  rw [refBody_fixed m id hf] at h1 hi hrb
+  exact pointJacobian_mul_fixed m w st qd id p h hf h1 hi hrb
+example (p : V3 Rat) := pointJacobian_mul_fixedBody C04.Ex.m Ex.w1 L06.Ex.st L06.Ex.qd fixedDisc p
+  Ex.w1_jacHyp Ex.m_fixed (by decide) (by decide) (by decide)
+
+/-- for a fixed body `G q̇` of the body spatial Jacobian is the spatial velocity of the movable
+    parent expressed in the frame of the fixed body -/
+theorem bodySpatialJacobian_mul_fixedBody (m : ModelS α) (w : WS α) (st : QS α) (qd : VecN α)
+    (id : Nat) (h : JacHyp m w qd) (hf : m.isFixedBodyId id = true)
+    (h1 : 1 ≤ m.refBody id) (hi : m.refBody id < m.nBodies) :
+    mulVecSV (calcBodySpatialJacobian m w st id zeroMat false).2 m.qdotSize qd
+      = (m.fixedBody (id - fixedDisc)).parentTransform.apply (w.v (m.refBody id)) := by
+  rw [refBody_fixed m id hf] at h1 hi ⊢
+  exact bodySpatialJacobian_mul_fixed m w st qd id h hf h1 hi
+example := bodySpatialJacobian_mul_fixedBody C04.Ex.m Ex.w1 L06.Ex.st L06.Ex.qd fixedDisc
+  Ex.w1_jacHyp Ex.m_fixed (by decide) (by decide)
+
+/-- (3 with C06) **the Jacobian is the derivative of forward kinematics**: after
+    `UpdateKinematics`, the 6-D point Jacobian times `q̇` is `(ω, d/dt (p_id + R_id x))` of the world
+    pose jet `P id` of the body, for every `q̇` (and `q̈`) -/
+theorem pointJacobian6D_is_derivative (m : ModelS α) (w : WS α) (st : QS α) (qd qdd : VecN α)
+    (h2 : (2 : α) ≠ 0) (hK : KinHyp m w st) (hL : Layout m)
+    (hcd : ∀ i, 1 ≤ i → i < m.nBodies → (m.joint i).jt = .custom →
+      (m.joint i).dof = (m.custom (m.joint i).customIdx).dof)
+    (hw3 : ∀ i, 1 ≤ i → i < m.nBodies → (m.joint i).jt = .spherical →
+      (m.joint i).qIndex + 2 < m.w3 i)
+    (P : Nat → Pose (D2 α)) (hP0 : P 0 = Pose.id)
+    (hP : ∀ i, 1 ≤ i → i < m.nBodies →
+      P i = (P (m.lam i)).comp ((framePoseJet m i).comp (jointPoseJet m i st qd qdd)))
+    (id : Nat) (h1 : 1 ≤ id) (hi : id < m.nBodies) (hid : ¬ fixedDisc ≤ id) (x : V3 α) :
+    mulVecSV (calcPointJacobian6D m (updateKinematics m w st qd qdd) st id x zeroMat false).2
+        m.qdotSize qd
+      = ⟨(NodeKin.ofPose (P id)).omega, (NodeKin.ofPose (P id)).ptd x⟩ ∧
+    mulVecV3 (calcPointJacobian m (updateKinematics m w st qd qdd) st id x zeroMat false).2
+        m.qdotSize qd
+      = (NodeKin.ofPose (P id)).ptd x := by
+  have hk := kinWS_updateKinematics m w st qd qdd hK
+  have hJ : JacHyp m (updateKinematics m w st qd qdd) qd :=
+    ⟨hL, colsOk_of_customCols hk.2 hcd, hk.1⟩
+  have hv := (C06.point_velocity_acceleration_after_update m w st qd qdd h2 hK.tree hK.jc hK.frame
+    hK.unit hK.ws hw3 P hP0 hP id h1 hi hid x).1
+  refine ⟨?_, ?_⟩
+  · rw [pointJacobian6D_mul m _ st qd id x hJ h1 hi hid, hv]
+  · rw [pointJacobian_mul m _ st qd id x hJ h1 hi hid]
+    show (calcPointVelocity6D m _ st qd id x false).2.v = _
+    rw [hv]
+/-- a point of body 3 of `C04.Ex.m` (spherical joint, on the revolute joint 2, on the revoluteZ
+    joint 1) -/
+example (x : V3 Rat) :=
+  pointJacobian6D_is_derivative C04.Ex.m L06.Ex.w L06.Ex.st L06.Ex.qd L06.Ex.qdd L06.Ex.two_ne
+    Ex.m_kinHyp Ex.m_layout Ex.m_customDof L06.Ex.m_w3
+    (bodyPoseJet C04.Ex.m L06.Ex.st L06.Ex.qd L06.Ex.qdd) rfl
+    (C06.bodyPoseJet_recursion C04.Ex.m L06.Ex.st L06.Ex.qd L06.Ex.qdd C04.Ex.m_tree).2 3
+    (by decide) (by decide) (by decide) x
+
+/-- `update_kinematics = true` means: run `UpdateKinematicsCustom (Q)` first -/
+theorem update_flag (m : ModelS α) (w : WS α) (st : QS α) (id : Nat) (p : V3 α) (G : MatN α) :
+    calcPointJacobian m w st id p G true
+      = calcPointJacobian m (updateKinematicsCustom m w (some st) none none) st id p G false ∧
+    calcPointJacobian6D m w st id p G true
+      = calcPointJacobian6D m (updateKinematicsCustom m w (some st) none none) st id p G false ∧
+    calcBodySpatialJacobian m w st id G true
+      = calcBodySpatialJacobian m (updateKinematicsCustom m w (some st) none none) st id G false :=
+  ⟨rfl, rfl, rfl⟩
+
+/-! ### 4. the three Jacobians agree under the change of frame -/
+
+/-- (4a) rows 3..5 of the 6-D point Jacobian are the point Jacobian (for input matrices related in
+    the same way, e.g. both zero; any `update` flag; no hypothesis on the model) -/
+theorem jacobians_agree_rows (m : ModelS α) (w : WS α) (st : QS α) (id : Nat) (p : V3 α)
+    (G3 G6 : MatN α) (update : Bool) (hG : ∀ r k, r < 3 → G3 r k = G6 (r + 3) k) :
+    ∀ r k, r < 3 →
+      (calcPointJacobian m w st id p G3 update).2 r k
+        = (calcPointJacobian6D m w st id p G6 update).2 (r + 3) k :=
+  pointJacobian_rows m w st id p G3 G6 update hG
+example (p : V3 Rat) := jacobians_agree_rows C04.Ex.m L06.Ex.w L06.Ex.st 3 p zeroMat zeroMat true
+  (fun _ _ _ => rfl)
+
+/-- (4b) column by column, `PJ6 = ⟨1, p_world⟩ ∘ T_body⁻¹` applied to the body spatial Jacobian,
+    where `T_body = bsjT` is the base → body transform the latter uses; `T_body.E` must be a
+    rotation (input matrices related in the same way) -/
+theorem jacobians_agree_frame (m : ModelS α) (w : WS α) (st : QS α) (id : Nat) (p : V3 α)
+    (G6 GB : MatN α) (update : Bool)
+    (hrot : (bsjT m (updQ m w st update) id).E.IsRot)
+    (hG : ∀ k, colSV G6 k
+      = (⟨M3.one, bodyToBase0 m (updQ m w st update) id p⟩ : XT α).apply
+          ((bsjT m (updQ m w st update) id).inverse.apply (colSV GB k))) :
+    ∀ k, colSV (calcPointJacobian6D m w st id p G6 update).2 k
+      = (⟨M3.one, bodyToBase0 m (updQ m w st update) id p⟩ : XT α).apply
+          ((bsjT m (updQ m w st update) id).inverse.apply
+            (colSV (calcBodySpatialJacobian m w st id GB update).2 k)) :=
+  pointJacobian6D_of_spatial m w st id p G6 GB update hrot hG
+
+/-- the fixed body of `C04.Ex.m`: `T_body = parentTransform * X_base[2]` -/
+example (p : V3 Rat) :=
+  jacobians_agree_frame C04.Ex.m Ex.w1 L06.Ex.st fixedDisc p zeroMat zeroMat false
+    (by
+      rw [updQ_false, bsjT_fixed _ _ _ Ex.m_fixed, XT.mul_E]
+      exact C04.Ex.m_fixedFrame.mul
+        (Ex.w1_jacHyp.kin.rot_base C04.Ex.m_tree 2 (by decide) (by decide)))
+    (fun k => zeroMat_related _ _ k)
+
+/-- (4b) for zero-initialised matrices and a movable body: `T_body = X_base[id]` -/
+theorem jacobians_agree_frame_zero (m : ModelS α) (w : WS α) (st : QS α) (id : Nat) (p : V3 α)
+    (update : Bool) (hid : ¬ fixedDisc ≤ id) (hrot : ((updQ m w st update).X_base id).E.IsRot) :
+    ∀ k, colSV (calcPointJacobian6D m w st id p zeroMat update).2 k
+      = (⟨M3.one, bodyToBase0 m (updQ m w st update) id p⟩ : XT α).apply
+          (((updQ m w st update).X_base id).inverse.apply
+            (colSV (calcBodySpatialJacobian m w st id zeroMat update).2 k)) := by
+  have e := bsjT_movable m (updQ m w st update) id hid
+  have := jacobians_agree_frame m w st id p zeroMat zeroMat update (by rw [e]; exact hrot)
+    (fun k => zeroMat_related _ _ k)
+  rw [e] at this
+  exact this
+/-- with `update = true` on the workspace left by the construction code -/
+example (p : V3 Rat) := jacobians_agree_frame_zero C04.Ex.m C04.Ex.w C04.Ex.st 3 p true (by decide)
+  (C04.isRot_invariant C04.Ex.m C04.Ex.w C04.Ex.st C04.Ex.m_tree C04.Ex.m_hasJcalc C04.Ex.m_frames
+    C04.Ex.m_unit C04.Ex.w_base0 3 (by decide))
+/-- with `update = false` after `UpdateKinematicsCustom (Q, QDot)` -/
+example (p : V3 Rat) := jacobians_agree_frame_zero C04.Ex.m Ex.w1 L06.Ex.st 3 p false (by decide)
+  (kinWS_rotations C04.Ex.m Ex.w1 L06.Ex.qd Ex.w1_jacHyp.kin C04.Ex.m_tree 3 (by decide)
+    (by decide))
+
+/-! ### 5. a matrix that is not zero-initialised -/
+
+/-- (5) `garbage_init`: with an arbitrary initial matrix exactly the off-path columns keep their
+    initial values — the written rows of the on-path columns do not depend on the initial matrix,
+    every other column is the column of the initial matrix -/
+theorem garbage_init (m : ModelS α) (w : WS α) (T : XT α) (start : Nat) (sel : SV α → List α)
+    (G G' : MatN α) (hL : Layout m) (hc : ColsOk m w) (hs : start < m.nBodies) :
+    (∀ j ∈ path m start, ∀ c, c < (w.Scols m j).length → ∀ r,
+      r < (sel (T.apply ((w.X_base j).inverse.apply ((w.Scols m j).getD c SV.zero)))).length →
+      jacFill m w T start sel G r ((m.joint j).qIndex + c)
+        = jacFill m w T start sel G' r ((m.joint j).qIndex + c)) ∧
+    (∀ k, (∀ j ∈ path m start, ¬ inBlock m w j k) → ∀ r,
+      jacFill m w T start sel G r k = G r k) := by
+  refine ⟨fun j hj c hcj r hr => ?_, fun k hk r => jacFill_offpath m w T start sel G hL.tree hs k hk r⟩
+  rw [jacFill_column m w T start sel G hL hc hs j hj c hcj r,
+    jacFill_column m w T start sel G' hL hc hs j hj c hcj r, if_pos hr, if_pos hr]
+example (T : XT Rat) (G G' : MatN Rat) :=
+  garbage_init C04.Ex.m Ex.w1 T 3 SV.toList G G' Ex.m_layout Ex.w1_jacHyp.cols (by decide)
+
+/-- (5) `garbage_mul`: this is why the caller must zero-initialise — with an arbitrary initial matrix
+    `G q̇` is off by the product of the off-path columns of the initial matrix with `q̇` -/
+theorem garbage_mul (m : ModelS α) (w : WS α) (qd : VecN α) (h : JacHyp m w qd) (T : XT α)
+    (start : Nat) (h1 : 1 ≤ start) (hs : start < m.nBodies) (G : MatN α) :
+    mulVecSV (jacFill m w T start SV.toList G) m.qdotSize qd
+      = T.apply ((w.X_base start).inverse.apply (w.v start))
+        + mulVecSV (offPathPart m w start G) m.qdotSize qd :=
+  jacFill_mulVec_garbage h.layout h.cols h.kin T start h1 hs G
+example (T : XT Rat) (G : MatN Rat) :=
+  garbage_mul C04.Ex.m Ex.w1 L06.Ex.qd Ex.w1_jacHyp T 3 (by decide) (by decide) G
+
+/-- counterexample: "zero-initialised" cannot be dropped from (3).  With the initial matrix
+    `Ex.Gbad` (a single 1 in row 0 of column 5, a column of the custom joint 4, which is not on the
+    path of body 1) `G q̇` differs from the velocity, for every transform `T` -/
+example (T : XT Rat) :
+    mulVecSV (jacFill C04.Ex.m Ex.w1 T 1 SV.toList Ex.Gbad) C04.Ex.m.qdotSize L06.Ex.qd
+      ≠ T.apply ((Ex.w1.X_base 1).inverse.apply (Ex.w1.v 1)) := by
+  rw [garbage_mul C04.Ex.m Ex.w1 L06.Ex.qd Ex.w1_jacHyp T 1 (by decide) (by decide)]
+  intro h
+  exact Ex.Gbad_err (sv_add_eq_self _ _ h)
+
 end Rbdl.C05
